@@ -301,13 +301,23 @@ class ArgumentAnalyzer:
 
         assert strict_positional + positional == p_to_n
 
+        taken = {name for name in self.name_to_positions if isinstance(name, str)}
+
+        def argname(pos):
+            # The made-up name of a strictly positional slot must not be the
+            # name of a parameter a method declares
+            name = f"ARG{pos + 1}"
+            while name in taken:
+                name += "_"
+            return name
+
         self.strict_positional_required = [
-            f"ARG{pos + 1}"
+            argname(pos)
             for pos, _ in enumerate(strict_positional)
             if self.counts[pos][0] == self.total
         ]
         self.strict_positional_optional = [
-            f"ARG{pos + 1}"
+            argname(pos)
             for pos, _ in enumerate(strict_positional)
             if self.counts[pos][0] != self.total
         ]
